@@ -565,6 +565,51 @@ func Run(r *vh.Run) {
 		e[i] = 0xFF
 	}
 	entropyCase(r, "ent-ones", e, "kind:entropy-boundary")
+	// the LONGEST phrases: entropies whose first eleven words are longest words of the list and whose
+	// last 7 entropy bits make the twelfth word as long as possible (a uniform entropy reaches such
+	// lengths with probability ~1e-9; the shortest phrases likewise)
+	for k, want := range []int{8, 8, 8, 3, 3} {
+		var pick []int
+		for j, w := range words {
+			if len(w) == want {
+				pick = append(pick, j)
+			}
+		}
+		if len(pick) == 0 {
+			continue
+		}
+		var first [11]int
+		for i := range first {
+			first[i] = pick[(i*131+k*17)%len(pick)]
+		}
+		best, bestLen := [16]byte{}, -1
+		for tail := 0; tail < 128; tail++ {
+			var ent [16]byte
+			// pack 11 words of 11 bits and 7 more bits, big-endian bit order (BIP-39)
+			bit := 0
+			put := func(v, n int) {
+				for b := n - 1; b >= 0; b-- {
+					if v>>b&1 == 1 {
+						ent[bit/8] |= 1 << (7 - bit%8)
+					}
+					bit++
+				}
+			}
+			for _, w := range first {
+				put(w, 11)
+			}
+			put(tail, 7)
+			last := refEncode(ent)[11]
+			l := len(words[last])
+			if want == 3 {
+				l = -l
+			}
+			if l > bestLen || bestLen == -1 {
+				best, bestLen = ent, l
+			}
+		}
+		entropyCase(r, fmt.Sprintf("ent-extreme-length-%d-%d", want, k), best, "kind:entropy-extreme-phrase-length")
+	}
 	for bit := 0; bit < 128; bit++ {
 		var a, b [16]byte
 		a[bit/8] = 1 << (7 - bit%8)
